@@ -11,16 +11,26 @@ the supported subset, or a target disappeared (the tie is broken: the caller sta
 A target that cannot be translated is still emitted, as a definition that always fails (`throw (.other "untranslatable …")`),
 so that the bridge theorems about it break rather than the whole build.
 
-Supported Python (everything else raises Untranslatable):
-  expressions  int / bool literals, names, self._field, self.method / self.prop (inlined as calls of the generated
-               definition of the same class), child.method(args) / child.prop on objects of an *interface* type,
-               + * // % - (checked) **  (2 ** n), comparison chains, and / or / not, conditional expressions,
-               min/max (two arguments or one iterable), sum, set, sorted (ignored on sets), len, range, map with lambda / bound method / sum,
-               set / list / generator comprehensions (one generator, optional ifs), itertools.product(*x),
-               itertools.combinations_with_replacement, math.lcm / least_common_multiple, isinstance (-> True for the declared type),
-               int(x) on an int, x.bit_length()
-  statements   assignment to a local, `s.add(e)`, `s |= e`, `x += e`, assert, return, if / elif / else (both as statement with returns
-               in all branches, or updating locals), for over an iterable with loop-carried locals, docstrings, `pass`
+Supported Python (everything else raises Untranslatable; group `Gen.Symbolic`, the other groups have their own modules):
+  expressions  int / bool literals, locals, self._field (the attribute that stores a constructor parameter is discovered from
+               `__init__`, not named in a table), self.method / self.prop of the public interface (calls of the generated definition of
+               the same class), child.method(args) / child.prop on objects of the *interface* type,
+               + * // % - (checked) ** , unary minus (from there on the arithmetic is done in `Int` with Python's floor semantics and
+               goes back to the naturals through the checked `Py.toNat` where the value is stored / returned / passed on),
+               comparison chains, and / or / not on booleans, conditional expressions, min/max (two arguments or one iterable), sum,
+               set, sorted / list / tuple (order of a set is never observed), len, range, map with lambda / bound method / function,
+               set / list / generator comprehensions (any number of `for` / `if` for sets), itertools.product(*x),
+               itertools.combinations_with_replacement, math.lcm, `a | b` on sets, isinstance (-> True for the declared type),
+               int(x) on an int, x.bit_length(), calls of private methods / private properties / module-level functions of the same
+               file (found through the call graph and inlined as a nested `do` block with its own `return` scope; a generator-expression
+               argument stays lazy and is fused into the one loop that consumes it)
+  statements   assignment to a local, `a, b = x, y`, `q, r = divmod(x, y)`, `s.add(e)`, `s.update(e)`, `s |= e` (only on a set object
+               created by the function itself and not aliased: in-place mutation is translated as rebinding), `x += e` …, assert,
+               raise, return (also early), if / elif / else, for over an iterable with loop-carried locals, docstrings, `pass`
+Normal forms (so that cosmetic edits give the SAME Lean term): every way of building a set (`{… for …}`, `set(… for …)`, `set(map(…))`,
+an accumulation loop) is the accumulation loop; operands of + * min max lcm == != and / or are flattened and sorted; only < and ≤ are
+emitted (`a > b` is `b < a`, `not a < b` is `b ≤ a`, negations are pushed to the comparisons); a local that is bound once to a name or
+literal is replaced by it; `if c: x = a else: x = b` with non-raising right-hand sides is `x = a if c else b`; messages are ignored.
 """
 from __future__ import annotations
 
@@ -40,11 +50,17 @@ class Untranslatable(Exception):
 
 
 # ----------------------------------------------------------------------------------------------- target tables
-# A class target: fields (python attribute -> (lean name, lean type)), methods to translate with their result type.
+# A class target: constructor parameters in order (lean name, type) -- the private attribute that stores a parameter is
+# *discovered* from `__init__` (`self._x = param` / `int(param)` / `set(param)` / `list(param)`), so renaming it changes nothing --
+# and the public methods to translate with their result type.  Everything else the targets call (private methods, private
+# properties, module-level functions) is discovered through the call graph and inlined as a nested `do` block.
 # Types: "int" -> Nat, "bool" -> Bool, "set" -> List Nat, "op" -> interface record, "oplist" -> List of it.
 
 LEAN_TY = {"int": "Nat", "bool": "Bool", "set": "List Nat", "list": "List Nat", "op": "OperatorI", "oplist": "List OperatorI",
            "setlist": "List (List Nat)"}
+
+# how `__init__` may store a constructor parameter of the given type (None: as it is)
+CTOR_WRAPPERS = {"int": (None, "int"), "set": ("set",), "oplist": ("list",), "op": (None,)}
 
 SYMBOLIC = {
     "module": "Gen.Symbolic",
@@ -57,318 +73,985 @@ SYMBOLIC = {
         "  modulo : Nat → Py.M (List Nat)",
         "  expand : Unit → Py.M (List Nat)",
     ],
+    "iface_class": "Operator",
     "iface": {"min": ("prop", "int"), "max": ("prop", "int"), "modulo": ("method", "set"), "expand": ("method0", "set")},
-    "functions": {"least_common_multiple": (["int", "int"], "int")},
     "classes": {
-        "NullaryOperator": {"fields": {"_value": ("value", "set")},
+        "NullaryOperator": {"ctor": [("value", "set")],
                             "methods": {"modulo": "set", "min": "int", "max": "int", "expand": "set"}},
-        "PaddingOperator": {"fields": {"_child": ("child", "op"), "_padding": ("padding", "int")},
-                            "methods": {"_pad": "int", "min": "int", "max": "int", "modulo": "set", "expand": "set"}},
-        "ConcatenationOperator": {"fields": {"_children": ("children", "oplist")},
+        "PaddingOperator": {"ctor": [("child", "op"), ("padding", "int")],
+                            "methods": {"min": "int", "max": "int", "modulo": "set", "expand": "set"}},
+        "ConcatenationOperator": {"ctor": [("children", "oplist")],
                                   "methods": {"modulo": "set", "min": "int", "max": "int", "expand": "set"}},
-        "RepetitionOperator": {"fields": {"_child": ("child", "op"), "_k": ("k", "int")},
+        "RepetitionOperator": {"ctor": [("child", "op"), ("k", "int")],
                                "methods": {"modulo": "set", "min": "int", "max": "int", "expand": "set"}},
-        "RangeRepetitionOperator": {"fields": {"_child": ("child", "op"), "_k_max": ("k_max", "int")},
+        "RangeRepetitionOperator": {"ctor": [("child", "op"), ("k_max", "int")],
                                     "methods": {"modulo": "set", "min": "int", "max": "int", "expand": "set"}},
-        "UnionOperator": {"fields": {"_children": ("children", "oplist")},
+        "UnionOperator": {"ctor": [("children", "oplist")],
                           "methods": {"modulo": "set", "min": "int", "max": "int", "expand": "set"}},
     },
 }
 
 TARGETS = [SYMBOLIC]
 
+LEAN_RESERVED = {"end", "at", "from", "by", "do", "then", "fun", "let", "in", "open", "show", "have", "match", "with", "where", "instance",
+                 "class", "structure", "def", "theorem", "mut", "type", "if", "else", "for", "return", "pure", "min", "max", "true", "false",
+                 "decide", "set", "sum", "id", "some", "none", "not", "and", "or", "import", "namespace", "section", "variable", "macro",
+                 "syntax", "notation", "unless", "try", "catch", "throw", "break", "continue", "universe", "deriving", "extends", "using"}
+
 
 def lname(n: str) -> str:
-    return n + "'" if n in {"end", "at", "from", "by", "do", "then", "fun", "let", "in", "open", "show", "have", "match", "with",
-                            "where", "instance", "class", "structure", "def", "theorem", "mut", "type"} else n
+    import re
+
+    if n in LEAN_RESERVED or re.fullmatch(r"[tc]\d+", n):  # `t<n>` / `c<n>` are the translator's own temporaries
+        return n + "'"
+    return n
+
+
+class T(str):
+    """A Lean term together with what the translator knows about the Python value it denotes.
+    sort:  "nat" (a Python int known to live in the naturals), "int" (a Lean `Int`: arithmetic below a unary minus), "bool", or
+           None (sets, lists, interface objects, tuples);
+    prop:  for a "bool" that is a single comparison, the same condition as a Lean `Prop`;
+    ac:    (op, operands) of a flattened sum / product of naturals (operands are kept sorted: a canonical form);
+    fresh: a newly created set object (safe to mutate in place: aliases nothing);
+    atom:  an immutable name or literal (may be substituted for a local that is bound to it)."""
+    sort: typing.Optional[str] = None
+    prop: typing.Optional[str] = None
+    ac: typing.Optional[typing.Tuple[str, typing.List["T"]]] = None
+    fresh: bool = False
+    atom: bool = False
+    tag: typing.Optional[str] = None  # type tag ("op", "oplist", "set", "int", ...) when known
+
+
+def mk(s: str, sort: typing.Optional[str] = None, prop: typing.Optional[str] = None, ac=None, fresh: bool = False, atom: bool = False,
+       tag: typing.Optional[str] = None) -> T:
+    t = T(s)
+    t.sort, t.prop, t.ac, t.fresh, t.atom, t.tag = sort, prop, ac, fresh, atom, tag
+    return t
+
+
+def indent(lines: typing.Iterable[str], k: int) -> typing.List[str]:
+    """Statements are strings whose continuation lines are indented *relative* to their first line; indenting a block therefore
+    indents every physical line."""
+    pad = " " * k
+    return [pad + s.replace("\n", "\n" + pad) for s in lines]
+
+
+class Ctx:
+    """Counters shared by all translators that work on one target (temporaries must be unique across inlined helpers)."""
+
+    def __init__(self, group: dict, module_funcs: typing.Dict[str, ast.FunctionDef], classes: typing.Dict[str, ast.ClassDef],
+                 fields: typing.Dict[str, typing.Dict[str, typing.Tuple[str, str]]]):
+        self.group = group
+        self.module_funcs = module_funcs
+        self.classes = classes
+        self.fields = fields  # class -> python attribute -> (lean name, type)
+        self.tmp = 0
+        self.acc = 0
+        self.helpers = 0
+        self.stack: typing.List[str] = []
+
+    def fresh_tmp(self) -> str:
+        self.tmp += 1
+        return "t%d" % self.tmp
+
+    def fresh_acc(self) -> str:
+        self.acc += 1
+        return "c%d" % self.acc
 
 
 class FnTranslator:
     """Translates one function body.  Expressions are translated to *pure* Lean terms; every sub-expression that may raise
-    (or that calls an interface method) is hoisted into a monadic `let t ← …` in front of the statement."""
+    (or that calls an interface method) is hoisted, in evaluation order, into a monadic `let t ← …` in front of the statement."""
 
-    def __init__(self, group: dict, cls: typing.Optional[str], locals_: typing.Dict[str, str]):
-        self.group = group
+    def __init__(self, ctx: Ctx, cls: typing.Optional[str], suffix: str = ""):
+        self.ctx = ctx
+        self.group = ctx.group
         self.cls = cls
-        self.fields = group["classes"][cls]["fields"] if cls else {}
-        self.types = dict(locals_)  # python local -> type tag
+        self.fields = ctx.fields.get(cls, {}) if cls else {}
+        self.suffix = suffix
+        self.types: typing.Dict[str, str] = {}        # python local -> type tag
+        self.names: typing.Dict[str, str] = {}        # python local in scope -> lean identifier
+        self.subst: typing.Dict[str, T] = {}          # python local bound once to an atom -> that atom (copy propagation)
+        self.thunks: typing.Dict[str, typing.Tuple[ast.AST, "FnTranslator"]] = {}  # parameter bound to a generator expression
+        self.fresh_sets: typing.Set[str] = set()      # python locals that hold a set object created here
+        self.mut: typing.Set[str] = set()             # python locals assigned more than once
         self.pre: typing.List[str] = []
-        self.tmp = 0
+        self.returns_fresh = True
+        self.return_sorts: typing.Set[typing.Optional[str]] = set()
 
     # --- helpers
-    def fresh(self) -> str:
-        self.tmp += 1
-        return "t%d" % self.tmp
+    def child(self) -> "FnTranslator":
+        """A translator for a nested scope (lambda, comprehension, loop body): sees everything, leaks nothing."""
+        sub = FnTranslator(self.ctx, self.cls, self.suffix)
+        sub.types, sub.names, sub.subst = dict(self.types), dict(self.names), dict(self.subst)
+        sub.thunks, sub.fresh_sets, sub.mut = dict(self.thunks), set(self.fresh_sets), set(self.mut)
+        return sub
 
-    def bind(self, mexpr: str) -> str:
-        v = self.fresh()
+    def take_pre(self) -> typing.List[str]:
+        p, self.pre = self.pre, []
+        return p
+
+    def bind(self, mexpr: str, sort: typing.Optional[str] = "nat", tag: typing.Optional[str] = None, fresh: bool = False) -> T:
+        v = self.ctx.fresh_tmp()
         self.pre.append("let %s ← %s" % (v, mexpr))
-        return v
+        return mk(v, sort=sort, atom=True, tag=tag, fresh=fresh)
+
+    def declare(self, pyname: str, tag: typing.Optional[str] = None, uniq: str = "") -> str:
+        """Brings a Python local into scope and returns its Lean identifier (never one of the fields' / temporaries' names)."""
+        taken = {ln for (ln, _) in self.fields.values()} | {v for k, v in self.names.items() if k != pyname}
+        ln = lname(pyname) + self.suffix + uniq
+        while ln in taken:
+            ln += "'"
+        self.names[pyname] = ln
+        self.subst.pop(pyname, None)
+        self.thunks.pop(pyname, None)
+        if tag:
+            self.types[pyname] = tag
+        else:
+            self.types.pop(pyname, None)
+        return ln
 
     def self_call(self, meth: str, args: typing.List[str]) -> str:
         assert self.cls
         fl = " ".join(ln for (ln, _) in self.fields.values())
-        return ("Gen.%s.%s %s %s" % (self.cls, meth.lstrip("_") if meth != "_pad" else "pad", fl, " ".join(args))).strip()
+        return ("Gen.%s.%s %s %s" % (self.cls, meth, fl, " ".join(args))).strip()
 
     def typeof(self, n: ast.AST) -> typing.Optional[str]:
         if isinstance(n, ast.Name):
+            if n.id in self.subst:
+                return self.subst[n.id].tag
             return self.types.get(n.id)
         if isinstance(n, ast.Attribute) and isinstance(n.value, ast.Name) and n.value.id == "self" and n.attr in self.fields:
             return self.fields[n.attr][1]
         return None
 
+    @staticmethod
+    def sort_of_tag(tag: typing.Optional[str]) -> typing.Optional[str]:
+        return {"int": "nat", "bool": "bool"}.get(tag or "")
+
+    def nat(self, t: T) -> T:
+        """A value that has to be a natural from here on (stored in a local, returned, passed on): leaving `Int` is checked."""
+        if t.sort == "int":
+            return self.bind("Py.toNat %s" % t)
+        return t
+
+    @staticmethod
+    def to_int(t: T) -> str:
+        return str(t) if t.sort == "int" else "(%s : Int)" % t
+
+    def need_bool(self, t: T, what: str) -> T:
+        if t.sort != "bool":
+            raise Untranslatable("%s: not a boolean expression (truthiness of other values is outside the fragment)" % what)
+        return t
+
     # --- expressions
-    def e(self, n: ast.AST) -> str:
+    def e(self, n: ast.AST) -> T:
         if isinstance(n, ast.Constant):
             if isinstance(n.value, bool):
-                return "true" if n.value else "false"
+                return mk("true" if n.value else "false", sort="bool", prop="True" if n.value else "False", atom=True)
             if isinstance(n.value, int) and n.value >= 0:
-                return "(%d : Nat)" % n.value
+                return mk("(%d : Nat)" % n.value, sort="nat", atom=True, tag="int")
             raise Untranslatable("constant %r" % (n.value,))
         if isinstance(n, ast.Name):
-            return lname(n.id)
+            if n.id in self.thunks:
+                raise Untranslatable("generator `%s` used other than as the iterable of one loop / comprehension / reduction" % n.id)
+            if n.id in self.subst:
+                return self.subst[n.id]
+            if n.id in self.names:
+                tag = self.types.get(n.id)
+                # Reading a local that holds a set created here may give the object a second name (`b = out`); from then on
+                # in-place mutation is no longer the same as rebinding, so the local stops being mutable for the translation.
+                # (Reads that only consume the value -- `return out`, iterating, reductions -- go through `consume`.)
+                self.fresh_sets.discard(n.id)
+                return mk(self.names[n.id], sort=self.sort_of_tag(tag), atom=n.id not in self.mut, tag=tag)
+            raise Untranslatable("name `%s` is not a parameter or a definitely assigned local" % n.id)
         if isinstance(n, ast.Attribute):
             return self.attr(n)
         if isinstance(n, ast.BinOp):
-            a, b = self.e(n.left), self.e(n.right)
-            if isinstance(n.op, ast.Mod):
-                return self.bind("Py.mod %s %s" % (a, b))
-            if isinstance(n.op, ast.FloorDiv):
-                return self.bind("Py.floordiv %s %s" % (a, b))
-            if isinstance(n.op, ast.Sub):
-                return self.bind("Py.sub %s %s" % (a, b))
-            if isinstance(n.op, ast.Pow):
-                return "(%s ^ %s)" % (a, b)
-            if isinstance(n.op, ast.Add):
-                return "(%s + %s)" % (a, b)
-            if isinstance(n.op, ast.Mult):
-                return "(%s * %s)" % (a, b)
-            raise Untranslatable("operator %s" % type(n.op).__name__)
-        if isinstance(n, ast.UnaryOp) and isinstance(n.op, ast.Not):
-            return "(!%s)" % self.e(n.operand)
+            return self.binop(n)
+        if isinstance(n, ast.UnaryOp):
+            if isinstance(n.op, ast.Not):
+                return self.negate(self.need_bool(self.e(n.operand), "not"))
+            if isinstance(n.op, ast.USub):
+                a = self.e(n.operand)
+                if a.sort not in ("nat", "int"):
+                    raise Untranslatable("unary minus on a non-integer")
+                return mk("(-%s)" % self.to_int(a), sort="int")
+            if isinstance(n.op, ast.UAdd):
+                a = self.e(n.operand)
+                if a.sort not in ("nat", "int"):
+                    raise Untranslatable("unary plus on a non-integer")
+                return a
+            raise Untranslatable("unary operator %s" % type(n.op).__name__)
         if isinstance(n, ast.Compare):
-            parts = []
-            left = self.e(n.left)
-            for op, c in zip(n.ops, n.comparators):
-                r = self.e(c)
-                sym = {ast.Eq: "==", ast.NotEq: "!=", ast.LtE: "≤", ast.Lt: "<", ast.GtE: "≥", ast.Gt: ">"}.get(type(op))
-                if sym is None:
-                    raise Untranslatable("comparison %s" % type(op).__name__)
-                parts.append("(%s %s %s)" % (left, sym, r) if sym in ("==", "!=") else "decide (%s %s %s)" % (left, sym, r))
-                left = r
-            return "(" + " && ".join(parts) + ")"
+            return self.compare(n)
         if isinstance(n, ast.BoolOp):
             # `and` / `or` on booleans; operands that may raise are hoisted, which is sound only when they cannot raise
-            # after short-circuiting matters -- the targets use them on pure comparisons only.
+            # after short-circuiting matters -- so such operands are refused.  Value-equal forms get one spelling.
             before = len(self.pre)
-            vals = [self.e(v) for v in n.values]
+            vals: typing.List[T] = []
+            sym = " && " if isinstance(n.op, ast.And) else " || "
+            for v in n.values:
+                t = self.need_bool(self.e(v), "and / or")
+                if t.ac and t.ac[0] == sym:
+                    vals += t.ac[1]
+                else:
+                    vals.append(t)
             if len(self.pre) != before:
                 raise Untranslatable("short-circuit operator with raising operands")
-            return "(" + (" && " if isinstance(n.op, ast.And) else " || ").join(vals) + ")"
+            return self.boolop(sym, vals)
         if isinstance(n, ast.IfExp):
             before = len(self.pre)
-            c, a, b = self.e(n.test), self.e(n.body), self.e(n.orelse)
+            c, a, b = self.need_bool(self.e(n.test), "conditional expression"), self.e(n.body), self.e(n.orelse)
             if len(self.pre) != before:
                 raise Untranslatable("conditional expression with raising operands")
-            return "(if %s then %s else %s)" % (c, a, b)
+            return self.ite(c, a, b)
         if isinstance(n, ast.Call):
             return self.call(n)
-        if isinstance(n, (ast.SetComp, ast.GeneratorExp, ast.ListComp)):
-            return self.comp(n)
+        if isinstance(n, ast.SetComp):
+            return self.set_builder(n.generators, n.elt, self)
+        if isinstance(n, (ast.GeneratorExp, ast.ListComp)):
+            return self.comp(n, self)
         raise Untranslatable(type(n).__name__)
 
-    def attr(self, n: ast.Attribute) -> str:
-        if isinstance(n.value, ast.Name) and n.value.id == "self":
+    def consume(self, n: ast.AST) -> T:
+        """`e(n)` for a position that only reads the value now and keeps no reference to the object."""
+        if isinstance(n, ast.Name) and n.id in self.fresh_sets:
+            t = self.e(n)
+            self.fresh_sets.add(n.id)
+            return t
+        return self.e(n)
+
+    def ite(self, c: T, a: T, b: T) -> T:
+        if a.sort == "int" or b.sort == "int":
+            a, b = mk(self.to_int(a), sort="int"), mk(self.to_int(b), sort="int")
+        sort = a.sort if a.sort == b.sort else None
+        return mk("(if %s then %s else %s)" % (c.prop or c, a, b), sort=sort, tag=a.tag if a.tag == b.tag else None)
+
+    def boolop(self, sym: str, vals: typing.List[T]) -> T:
+        uniq = sorted(set(vals), key=str)
+        if len(uniq) == 1:
+            return uniq[0]
+        return mk("(" + sym.join(uniq) + ")", sort="bool", ac=(sym, uniq))
+
+    def negate(self, t: T) -> T:
+        """`not t` in canonical form: negations are pushed to the comparisons (`not a < b` is `b <= a` on ints)."""
+        neg = getattr(t, "neg", None)
+        if neg is not None:
+            return neg()
+        if t.ac and t.ac[0] in (" && ", " || "):
+            return self.boolop(" || " if t.ac[0] == " && " else " && ", [self.negate(x) for x in t.ac[1]])
+        if str(t) in ("true", "false"):
+            return mk("false" if str(t) == "true" else "true", sort="bool", atom=True)
+        r = mk("(!%s)" % t, sort="bool")
+        r.neg = lambda: t  # type: ignore[attr-defined]
+        return r
+
+    def cmp(self, sym: str, a: T, b: T) -> T:
+        """One comparison in canonical spelling: only `<`, `≤`, `==`, `!=`; operands of the symmetric ones sorted."""
+        if a.sort not in ("nat", "int") or b.sort not in ("nat", "int"):
+            if sym not in ("==", "!="):
+                raise Untranslatable("ordering comparison of non-integers")
+            if a.sort != b.sort or a.sort is not None:
+                raise Untranslatable("comparison of values of different kinds")
+            raise Untranslatable("comparison of sets / lists (identity of duplicate-free lists is not set equality)")
+        if a.sort == "int" or b.sort == "int":
+            a, b = mk(self.to_int(a)), mk(self.to_int(b))
+        if sym == ">":
+            sym, a, b = "<", b, a
+        elif sym == "≥":
+            sym, a, b = "≤", b, a
+        if sym in ("==", "!=") and str(b) < str(a):
+            a, b = b, a
+        if sym in ("==", "!="):
+            r = mk("(%s %s %s)" % (a, sym, b), sort="bool", prop="%s %s %s" % (a, "=" if sym == "==" else "≠", b))
+            r.neg = lambda: self.cmp("!=" if sym == "==" else "==", a, b)  # type: ignore[attr-defined]
+        else:
+            r = mk("(decide (%s %s %s))" % (a, sym, b), sort="bool", prop="%s %s %s" % (a, sym, b))
+            r.neg = lambda: self.cmp("≤" if sym == "<" else "<", b, a)  # type: ignore[attr-defined]
+        return r
+
+    def compare(self, n: ast.Compare) -> T:
+        parts: typing.List[T] = []
+        left = self.e(n.left)
+        for i, (op, c) in enumerate(zip(n.ops, n.comparators)):
+            before = len(self.pre)
+            r = self.e(c)
+            if i > 0 and len(self.pre) != before:
+                raise Untranslatable("comparison chain with raising operands (the chain short-circuits)")
+            sym = {ast.Eq: "==", ast.NotEq: "!=", ast.LtE: "≤", ast.Lt: "<", ast.GtE: "≥", ast.Gt: ">"}.get(type(op))
+            if sym is None:
+                raise Untranslatable("comparison %s" % type(op).__name__)
+            parts.append(self.cmp(sym, left, r))
+            left = r
+        return parts[0] if len(parts) == 1 else self.boolop(" && ", parts)
+
+    def binop(self, n: ast.BinOp) -> T:
+        a, b = self.e(n.left), self.e(n.right)
+        if isinstance(n.op, ast.BitOr) and a.tag == "set" and b.tag == "set":
+            return mk("(Py.setUnion %s %s)" % (a, b), fresh=True, tag="set")  # a new set object
+        for x in (a, b):
+            if x.sort not in ("nat", "int"):
+                raise Untranslatable("arithmetic on a non-integer (%s)" % type(n.op).__name__)
+        if a.sort == "int" or b.sort == "int":
+            ai, bi = self.to_int(a), self.to_int(b)
+            if isinstance(n.op, ast.Mod):
+                return self.bind("Py.imod %s %s" % (ai, bi), sort="int")
+            if isinstance(n.op, ast.FloorDiv):
+                return self.bind("Py.ifloordiv %s %s" % (ai, bi), sort="int")
+            sym = {ast.Add: "+", ast.Sub: "-", ast.Mult: "*"}.get(type(n.op))
+            if sym is None:
+                raise Untranslatable("operator %s below a unary minus" % type(n.op).__name__)
+            return mk("(%s %s %s)" % (ai, sym, bi), sort="int")
+        if isinstance(n.op, ast.Mod):
+            return self.bind("Py.mod %s %s" % (a, b))
+        if isinstance(n.op, ast.FloorDiv):
+            return self.bind("Py.floordiv %s %s" % (a, b))
+        if isinstance(n.op, ast.Sub):
+            return self.bind("Py.sub %s %s" % (a, b))
+        if isinstance(n.op, ast.Pow):
+            return mk("(%s ^ %s)" % (a, b), sort="nat")
+        if isinstance(n.op, (ast.Add, ast.Mult)):
+            sym = "+" if isinstance(n.op, ast.Add) else "*"
+            ops: typing.List[T] = []
+            for x in (a, b):  # sums / products of naturals are flattened and sorted: one spelling for all reorderings
+                ops += x.ac[1] if (x.ac and x.ac[0] == sym) else [x]
+            ops.sort(key=str)
+            return mk("(" + (" %s " % sym).join(ops) + ")", sort="nat", ac=(sym, ops))
+        raise Untranslatable("operator %s" % type(n.op).__name__)
+
+    def attr(self, n: ast.Attribute) -> T:
+        if isinstance(n.value, ast.Name) and n.value.id == "self" and "self" not in self.names:
+            if not self.cls:
+                raise Untranslatable("self outside a class")
             if n.attr in self.fields:
-                return self.fields[n.attr][0]
-            if self.cls and n.attr in self.group["classes"][self.cls]["methods"]:  # own property
-                return self.bind(self.self_call(n.attr, []))
+                ln, ty = self.fields[n.attr]
+                return mk(ln, sort=self.sort_of_tag(ty), atom=True, tag=ty)
+            if n.attr in self.group["classes"][self.cls]["methods"]:  # own public property
+                kind = self.group["iface"][n.attr][0]
+                if kind != "prop":
+                    raise Untranslatable("bound method self.%s used as a value" % n.attr)
+                return self.bind(self.self_call(n.attr, []), tag=self.group["iface"][n.attr][1])
+            fn = self.find_method(n.attr)
+            if fn is not None and self.decorators(fn) == ["property"]:
+                return self.inline(fn, [], [], method=True)
             raise Untranslatable("self.%s" % n.attr)
         if n.attr in self.group.get("iface", {}) and self.group["iface"][n.attr][0] == "prop":
-            return self.bind("(%s).%s" % (self.e(n.value), n.attr))
+            o = self.e(n.value)
+            if o.tag != "op":
+                raise Untranslatable("attribute .%s of something that is not an operator" % n.attr)
+            return self.bind("(%s).%s" % (o, n.attr), tag=self.group["iface"][n.attr][1])
         raise Untranslatable("attribute .%s" % n.attr)
 
-    def lam(self, var: str, body: ast.AST, vartype: typing.Optional[str] = None) -> typing.Tuple[bool, str]:
-        sub = FnTranslator(self.group, self.cls, self.types)
-        if vartype:
-            sub.types[var] = vartype
-        sub.tmp = self.tmp + 100
-        b = sub.e(body)
-        if sub.pre:
-            return True, "(fun %s => do\n      %s\n      pure %s)" % (lname(var), "\n      ".join(sub.pre), b)
-        return False, "(fun %s => %s)" % (lname(var), b)
+    # --- private helpers found through the call graph
+    def find_method(self, name: str) -> typing.Optional[ast.FunctionDef]:
+        cls = self.ctx.classes.get(self.cls or "")
+        if cls is None:
+            return None
+        for f in cls.body:
+            if isinstance(f, ast.FunctionDef) and f.name == name:
+                return f
+        return None
 
-    def comp(self, n) -> str:
-        if len(n.generators) != 1:
-            raise Untranslatable("comprehension with several generators")
-        g = n.generators[0]
+    @staticmethod
+    def decorators(fn: ast.FunctionDef) -> typing.List[str]:
+        return [ast.unparse(d) for d in fn.decorator_list]
+
+    def inline(self, fn: ast.FunctionDef, args: typing.List[ast.AST], keywords: typing.List[ast.keyword], method: bool) -> T:
+        """A call of a private method / module-level function of the translated file: the callee's body becomes a nested `do`
+        block (its own `return` scope) at the place of the call.  Arguments are evaluated first, left to right (call by value);
+        an argument that is a generator expression stays unevaluated and is fused into the single loop that consumes it."""
+        ctx = self.ctx
+        key = ("%s." % self.cls if method else "") + fn.name
+        if key in ctx.stack:
+            raise Untranslatable("recursive helper %s" % key)
+        decos = self.decorators(fn)
+        static = decos == ["staticmethod"]
+        if decos and not static and decos != ["property"]:
+            raise Untranslatable("decorated helper %s" % key)
+        a = fn.args
+        if a.vararg or a.kwarg or a.kwonlyargs or a.defaults or a.posonlyargs or a.kw_defaults:
+            raise Untranslatable("helper %s: only plain positional parameters are supported" % key)
+        params = [x.arg for x in a.args]
+        if method and not static:
+            if not params:
+                raise Untranslatable("method %s without self" % key)
+            params = params[1:]
+        given: typing.Dict[str, ast.AST] = {}
+        if len(args) > len(params) or any(isinstance(x, ast.Starred) for x in args):
+            raise Untranslatable("call of %s: arguments" % key)
+        for p, x in zip(params, args):
+            given[p] = x
+        order = params[:len(args)]
+        for kw in keywords:
+            if kw.arg is None or kw.arg not in params or kw.arg in given:
+                raise Untranslatable("call of %s: keyword arguments" % key)
+            given[kw.arg] = kw.value
+            order.append(kw.arg)
+        if set(given) != set(params):
+            raise Untranslatable("call of %s: missing arguments" % key)
+        ctx.helpers += 1
+        sub = FnTranslator(ctx, self.cls if (method and not static) else None, "_h%d" % ctx.helpers)
+        counts = count_assignments(fn.body)
+        sub.mut = {k for k, v in counts.items() if v > 1} | {p for p in params if counts.get(p, 0) > 0}
+        head: typing.List[str] = []
+        for p in order:  # evaluation order of the call
+            x = given[p]
+            if isinstance(x, ast.GeneratorExp):
+                if uses_of(fn.body, p) != 1 or p in counts:
+                    raise Untranslatable("helper %s: generator argument `%s` is not consumed exactly once" % (key, p))
+                sub.thunks[p] = (x, self)
+                continue
+            v = self.nat(self.e(x))
+            if v.atom and p not in sub.mut:
+                sub.subst[p] = v
+            else:
+                ln = sub.declare(p, v.tag)
+                head.append("let %s%s := %s" % ("mut " if p in sub.mut else "", ln, v))
+                if v.fresh:
+                    sub.fresh_sets.add(p)  # a set built for this call only
+        if not always_returns(fn.body):
+            raise Untranslatable("helper %s: a path ends without `return`" % key)
+        ctx.stack.append(key)
+        try:
+            body = sub.stmts(fn.body)
+        finally:
+            ctx.stack.pop()
+        sorts = sub.return_sorts
+        sort = next(iter(sorts)) if len(sorts) == 1 else None
+        return self.bind("(do\n" + "\n".join(indent(head + body, 4)) + ")", sort=sort, fresh=sub.returns_fresh,
+                         tag={"nat": "int", "bool": "bool"}.get(sort or ""))
+
+    # --- comprehensions and loops
+    def resolve_iter(self, node: ast.AST, scope: "FnTranslator") -> typing.Tuple[ast.AST, "FnTranslator"]:
+        """A name bound to a generator-expression argument stands for that expression, read in the scope of the caller."""
+        while isinstance(node, ast.Name) and node.id in scope.thunks:
+            node, scope = scope.thunks[node.id]
+        return node, scope
+
+    @staticmethod
+    def as_generators(node: ast.AST) -> typing.Optional[typing.Tuple[typing.List[ast.comprehension], ast.AST]]:
+        """`(elt for …)`, `[elt for …]` and `map(f, xs)` as generators + element (None: not such an expression)."""
+        if isinstance(node, (ast.GeneratorExp, ast.ListComp, ast.SetComp)):
+            return node.generators, node.elt
+        if (isinstance(node, ast.Call) and isinstance(node.func, ast.Name) and node.func.id == "map" and len(node.args) == 2
+                and not node.keywords):
+            fn, xs = node.args
+            var = ast.Name(id="x", ctx=ast.Load())
+            if isinstance(fn, ast.Lambda):
+                la = fn.args
+                if len(la.args) != 1 or la.vararg or la.kwarg or la.defaults or la.kwonlyargs:
+                    raise Untranslatable("map with a lambda that does not take exactly one argument")
+                return [ast.comprehension(target=ast.Name(id=la.args[0].arg, ctx=ast.Store()), iter=xs, ifs=[], is_async=0)], fn.body
+            if isinstance(fn, (ast.Name, ast.Attribute)):
+                free = {m.id for m in ast.walk(node) if isinstance(m, ast.Name)}
+                while var.id in free:
+                    var = ast.Name(id=var.id + "_", ctx=ast.Load())
+                call = ast.Call(func=fn, args=[var], keywords=[])
+                return [ast.comprehension(target=ast.Name(id=var.id, ctx=ast.Store()), iter=xs, ifs=[], is_async=0)], call
+            raise Untranslatable("map with %s" % ast.unparse(fn))
+        return None
+
+    def loop_over(self, gens: typing.List[ast.comprehension], scope: "FnTranslator", state: str,
+                  body: typing.Callable[["FnTranslator"], typing.List[str]], mut_state: typing.List[str],
+                  uniq: str = "") -> typing.List[str]:
+        """Statements that run `body` for every element the generators produce (exactly the nested `for` / `if` a comprehension
+        means), threading the loop-carried `state` through `Py.forEach`.  `scope` is the translator in whose scope the generators
+        are read (the caller's, for a generator argument); the statements are emitted for `self`."""
+        g = gens[0]
+        if getattr(g, "is_async", 0):
+            raise Untranslatable("async comprehension")
+        if not isinstance(g.target, ast.Name):
+            raise Untranslatable("loop / comprehension target that is not a plain name")
+        inner_node, inner_scope = self.resolve_iter(g.iter, scope)
+        gg = self.as_generators(inner_node)
+        if gg is not None and not isinstance(inner_node, ast.SetComp):
+            # `for v in (elt for …)`: one fused loop, the element is computed where the generator would yield it; the
+            # generator's own variables get names nothing else uses (they must not hide a local of the loop body)
+            self.ctx.helpers += 1
+            uniq_inner = "_g%d" % self.ctx.helpers
+
+            def fused(s2: "FnTranslator", g=g, gens=gens, gg=gg, scope=scope) -> typing.List[str]:
+                v = s2.nat(s2.e(gg[1]))
+                lines = s2.take_pre()
+                return lines + self.bind_target(g, gens, scope, v, state, body, mut_state)
+            return self.loop_over(gg[0], inner_scope, state, fused, mut_state, uniq_inner)
+        scope.pre, saved = [], scope.pre
+        try:
+            it = scope.consume(inner_node)
+            lines = scope.take_pre()
+        finally:
+            scope.pre = saved
+        sub = scope.child()
+        elem_tag = {"oplist": "op", "setlist": "set", "set": "int", "list": "int"}.get(it.tag or "")
+        var = sub.declare(g.target.id, elem_tag, uniq)
+        inner = self.after_target(g, gens, sub, state, body, mut_state, uniq)
+        lines.append("%s ← Py.forEach %s %s (fun %s %s => do" % (state, it, state, state, var))
+        lines += indent(["let mut %s := %s" % (m, m) for m in mut_state] + inner + ["pure %s" % state], 4)
+        lines[-1] += ")"
+        return lines
+
+    def bind_target(self, g, gens, outer: "FnTranslator", v: T, state, body, mut_state) -> typing.List[str]:
+        sub = outer.child()
+        if v.atom:
+            sub.names.pop(g.target.id, None)
+            sub.thunks.pop(g.target.id, None)
+            sub.subst[g.target.id] = v
+            lines: typing.List[str] = []
+        else:
+            lines = ["let %s := %s" % (sub.declare(g.target.id, v.tag), v)]
+        return lines + self.after_target(g, gens, sub, state, body, mut_state)
+
+    def after_target(self, g, gens, sub: "FnTranslator", state, body, mut_state, uniq: str = "") -> typing.List[str]:
+        conds: typing.List[T] = []
+        lines: typing.List[str] = []
+        for c in g.ifs:
+            t = sub.need_bool(sub.e(c), "comprehension condition")
+            if sub.pre:
+                raise Untranslatable("raising comprehension condition")
+            conds.append(t)
+        if len(gens) > 1:
+            inner = self.loop_over(gens[1:], sub, state, body, mut_state, uniq)
+        else:
+            inner = body(sub)
+        if conds:
+            c = sub.boolop(" && ", conds)
+            inner = ["if %s then" % (c.prop or c)] + indent(inner, 2)
+        return lines + inner
+
+    def set_builder(self, gens: typing.List[ast.comprehension], elt: ast.AST, scope: "FnTranslator") -> T:
+        """`{elt for …}`, `set(elt for …)`, `set(map(f, xs))`: ONE form, the accumulation loop that the comprehension means."""
+        acc = self.ctx.fresh_acc()
+
+        def body(s: "FnTranslator") -> typing.List[str]:
+            v = s.nat(s.e(elt))
+            if v.sort != "nat":
+                raise Untranslatable("set of non-integers")
+            return s.take_pre() + ["%s := Py.setAdd %s %s" % (acc, acc, v)]
+
+        lines = ["let mut %s := ([] : List Nat)" % acc] + self.loop_over(gens, scope, acc, body, [acc])
+        self.pre += lines
+        return mk(acc, fresh=True, tag="set")
+
+    def eval_in(self, scope: "FnTranslator", fn: typing.Callable[["FnTranslator"], T]) -> T:
+        """Evaluates in another scope (the caller's, for a generator argument); what has to be hoisted is hoisted here."""
+        if scope is self:
+            return fn(self)
+        saved, scope.pre = scope.pre, []
+        try:
+            r = fn(scope)
+            self.pre += scope.pre
+        finally:
+            scope.pre = saved
+        return r
+
+    def comp(self, n: ast.AST, scope: "FnTranslator") -> T:
+        return self.eval_in(scope, lambda s: s.comp_here(n))
+
+    def comp_here(self, n: ast.AST) -> T:
+        """A list comprehension / generator expression / `map` as the list of its elements, in order (`mapM`)."""
+        gg = self.as_generators(n)
+        assert gg is not None
+        gens, elt = gg
+        if len(gens) != 1:
+            raise Untranslatable("list comprehension / generator with several `for`")
+        g = gens[0]
         if not isinstance(g.target, ast.Name):
             raise Untranslatable("comprehension target")
-        it = self.e(g.iter)
-        var = g.target.id
+        it = self.iterable(g.iter)
+        sub = self.child()
+        elem_tag = {"oplist": "op", "setlist": "set", "set": "int", "list": "int"}.get(it.tag or "")
+        var = sub.declare(g.target.id, elem_tag)
+        its = str(it)
         for cond in g.ifs:
-            m, f = self.lam(var, cond)
-            if m:
+            c = sub.need_bool(sub.e(cond), "comprehension condition")
+            if sub.pre:
                 raise Untranslatable("raising comprehension condition")
-            it = "(%s).filter %s" % (it, f)
-        et = "op" if self.typeof(g.iter) == "oplist" else None
-        m, f = self.lam(var, n.elt, et)
-        lst = self.bind("(%s).mapM %s" % (it, f)) if m else "((%s).map %s)" % (it, f)
-        return "(Py.set %s)" % lst if isinstance(n, ast.SetComp) else lst
+            its = "(%s).filter (fun %s => %s)" % (its, var, c)
+        b = sub.nat(sub.e(elt))
+        out_tag = {"int": "list", "set": "setlist"}.get(b.tag or ("int" if b.sort == "nat" else ""))
+        if sub.pre:
+            lam = "(fun %s => do\n%s)" % (var, "\n".join(indent(sub.take_pre() + ["pure %s" % b], 6)))
+            return self.bind("(%s).mapM %s" % (its, lam), sort=None, tag=out_tag)
+        return mk("((%s).map (fun %s => %s))" % (its, var, b), tag=out_tag)
 
-    def call(self, n: ast.Call) -> str:
+    def iterable(self, n: ast.AST) -> T:
+        """The argument of a reduction (`sum`, `min`, `max`, `set`, `sorted`, `list`, `len`): a value, or a generator in place."""
+        node, scope = self.resolve_iter(n, self)
+        if self.as_generators(node) is not None and not isinstance(node, ast.SetComp):
+            return self.comp(node, scope)
+        if scope is not self:
+            raise Untranslatable("generator argument bound to something that is not a generator expression")
+        return self.consume(node)
+
+    def call(self, n: ast.Call) -> T:
         f = n.func
-        if n.keywords:
-            raise Untranslatable("keyword arguments")
-        if isinstance(f, ast.Name):
+        if isinstance(f, ast.Name) and f.id not in self.names and f.id not in self.subst:
+            if f.id in self.ctx.module_funcs:
+                return self.inline(self.ctx.module_funcs[f.id], n.args, n.keywords, method=False)
+            if n.keywords:
+                raise Untranslatable("keyword arguments")
             if f.id in ("min", "max"):
                 if len(n.args) == 2:
-                    return "(%s %s %s)" % (f.id, self.e(n.args[0]), self.e(n.args[1]))
+                    a, b = self.nat(self.e(n.args[0])), self.nat(self.e(n.args[1]))
+                    if a.sort != "nat" or b.sort != "nat":
+                        raise Untranslatable("%s of non-integers" % f.id)
+                    a, b = sorted((a, b), key=str)
+                    return mk("(%s %s %s)" % (f.id, a, b), sort="nat", tag="int")
                 if len(n.args) == 1:
-                    return self.bind("Py.%sOf %s" % (f.id, self.e(n.args[0])))
+                    return self.bind("Py.%sOf %s" % (f.id, self.iterable(n.args[0])), tag="int")
             if f.id == "sum" and len(n.args) == 1:
-                return "(Py.sum %s)" % self.e(n.args[0])
+                return mk("(Py.sum %s)" % self.iterable(n.args[0]), sort="nat", tag="int")
             if f.id == "set":
                 if not n.args:
-                    return "([] : List Nat)"
-                return "(Py.set %s)" % self.e(n.args[0])
+                    return mk("([] : List Nat)", fresh=True, tag="set")
+                if len(n.args) == 1:
+                    node, scope = self.resolve_iter(n.args[0], self)
+                    gg = self.as_generators(node)
+                    if gg is not None:
+                        return self.set_builder(gg[0], gg[1], scope)
+                    return mk("(Py.set %s)" % self.e(node), fresh=True, tag="set")
+            if f.id in ("sorted", "list", "tuple", "frozenset") and len(n.args) == 1:
+                t = self.iterable(n.args[0])  # order of a set is never observed by the translated fragment
+                return mk(str(t), tag=t.tag)
             if f.id == "len" and len(n.args) == 1:
-                return "(%s).length" % self.e(n.args[0])
+                return mk("(%s).length" % self.iterable(n.args[0]), sort="nat", tag="int")
             if f.id == "int" and len(n.args) == 1:
-                return self.e(n.args[0])
+                t = self.e(n.args[0])
+                if t.sort not in ("nat", "int"):
+                    raise Untranslatable("int() of a non-integer")
+                return t
             if f.id == "map" and len(n.args) == 2:
-                fn, it = n.args[0], self.e(n.args[1])
-                if isinstance(fn, ast.Lambda):
-                    m, lf = self.lam(fn.args.args[0].arg, fn.body)
-                elif isinstance(fn, ast.Name) and fn.id == "sum":
-                    m, lf = False, "Py.sum"
-                elif isinstance(fn, ast.Attribute) and isinstance(fn.value, ast.Name) and fn.value.id == "self":
-                    m, lf = True, "(fun x => %s)" % self.self_call(fn.attr, ["x"])
-                else:
-                    raise Untranslatable("map with %s" % ast.dump(fn))
-                return self.bind("(%s).mapM %s" % (it, lf)) if m else "((%s).map %s)" % (it, lf)
+                return self.comp(n, self)
             if f.id == "range" and len(n.args) == 1:
-                return "(Py.range %s)" % self.e(n.args[0])
-            if f.id == "isinstance":
-                return "true"
-            if f.id in self.group.get("functions", {}):
-                return self.bind("Gen.%s %s" % (f.id, " ".join(self.e(a) for a in n.args)))
+                return mk("(Py.range %s)" % self.nat(self.e(n.args[0])), tag="list")
+            if f.id == "isinstance" and len(n.args) == 2:
+                self.e(n.args[0])
+                return mk("true", sort="bool", prop="True", atom=True)
         if isinstance(f, ast.Attribute):
-            if isinstance(f.value, ast.Name) and f.value.id == "itertools":
+            if isinstance(f.value, ast.Name) and f.value.id == "itertools" and not n.keywords:
                 if f.attr == "combinations_with_replacement" and len(n.args) == 2:
-                    return "(Py.cwr %s %s)" % (self.e(n.args[0]), self.e(n.args[1]))
+                    return mk("(Py.cwr %s %s)" % (self.iterable(n.args[0]), self.nat(self.e(n.args[1]))), tag="setlist")
                 if f.attr == "product" and len(n.args) == 1 and isinstance(n.args[0], ast.Starred):
-                    return "(Py.product %s)" % self.e(n.args[0].value)
-            if isinstance(f.value, ast.Name) and f.value.id == "math" and f.attr == "lcm" and len(n.args) == 2:
-                return "(Py.lcm %s %s)" % (self.e(n.args[0]), self.e(n.args[1]))
-            if isinstance(f.value, ast.Name) and f.value.id == "self":
+                    return mk("(Py.product %s)" % self.iterable(n.args[0].value), tag="setlist")
+            if isinstance(f.value, ast.Name) and f.value.id == "math" and f.attr == "lcm" and len(n.args) == 2 and not n.keywords:
+                a, b = sorted((self.nat(self.e(n.args[0])), self.nat(self.e(n.args[1]))), key=str)  # commutative: one spelling
+                return mk("(Py.lcm %s %s)" % (a, b), sort="nat", tag="int")
+            if isinstance(f.value, ast.Name) and f.value.id == "self" and "self" not in self.names:
                 if self.cls and f.attr in self.group["classes"][self.cls]["methods"]:
-                    return self.bind(self.self_call(f.attr, [self.e(a) for a in n.args]))
+                    kind, rty = self.group["iface"][f.attr]
+                    if kind == "prop" or n.keywords:
+                        raise Untranslatable("call of self.%s" % f.attr)
+                    args = [str(self.nat(self.e(a))) for a in n.args]
+                    return self.bind(self.self_call(f.attr, args), sort=self.sort_of_tag(rty), tag=rty)
+                fn = self.find_method(f.attr)
+                if fn is not None and self.decorators(fn) != ["property"]:
+                    return self.inline(fn, n.args, n.keywords, method=True)
                 raise Untranslatable("self.%s()" % f.attr)
+            if n.keywords:
+                raise Untranslatable("keyword arguments")
             if f.attr == "bit_length" and not n.args:
-                return "(Py.bitLength %s)" % self.e(f.value)
+                return mk("(Py.bitLength %s)" % self.nat(self.e(f.value)), sort="nat", tag="int")
             iface = self.group.get("iface", {})
-            if f.attr in iface:
-                kind = iface[f.attr][0]
+            if f.attr in iface and iface[f.attr][0] in ("method", "method0"):
+                o = self.e(f.value)
+                if o.tag != "op":
+                    raise Untranslatable("method .%s of something that is not an operator" % f.attr)
+                kind, rty = iface[f.attr]
                 if kind == "method":
-                    return self.bind("(%s).%s %s" % (self.e(f.value), f.attr, " ".join(self.e(a) for a in n.args)))
-                if kind == "method0":
-                    return self.bind("(%s).%s ()" % (self.e(f.value), f.attr))
+                    args = [str(self.nat(self.e(a))) for a in n.args]
+                    if len(args) != 1:
+                        raise Untranslatable("arguments of .%s" % f.attr)
+                    return self.bind("(%s).%s %s" % (o, f.attr, " ".join(args)), sort=None, tag=rty)
+                if n.args:
+                    raise Untranslatable("arguments of .%s" % f.attr)
+                return self.bind("(%s).%s ()" % (o, f.attr), sort=None, tag=rty)
         raise Untranslatable("call %s" % ast.unparse(f))
 
     # --- statements
-    def flush(self, out: typing.List[str], ind: str) -> None:
-        out.extend(ind + p for p in self.pre)
-        self.pre = []
-
-    def assign(self, name: str, value: str, out: typing.List[str], ind: str, declared: typing.Set[str], mut: typing.Set[str]) -> None:
-        name = lname(name)
-        if name in declared:
-            out.append("%s%s := %s" % (ind, name, value))
+    def assign(self, name: str, v: T, lines: typing.List[str]) -> None:
+        v = self.nat(v)
+        lines += self.take_pre()
+        if name in self.thunks:
+            raise Untranslatable("assignment to a generator parameter")
+        if v.atom and name not in self.mut and name not in self.names:
+            self.subst[name] = v  # copy propagation: the local is just another name of `v`
+            if v.tag:
+                self.types[name] = v.tag
+            return
+        if name in self.names and name in self.mut:
+            lines.append("%s := %s" % (self.names[name], v))
+            if v.tag:
+                self.types[name] = v.tag
         else:
-            out.append("%s%s %s := %s" % (ind, "let mut" if name in mut else "let", name, value))
-            declared.add(name)
+            ln = self.declare(name, v.tag or ("int" if v.sort == "nat" else "bool" if v.sort == "bool" else None))
+            lines.append("let %s%s := %s" % ("mut " if name in self.mut else "", ln, v))
+        if v.fresh:
+            self.fresh_sets.add(name)
+        else:
+            self.fresh_sets.discard(name)
 
-    def stmts(self, body: typing.List[ast.stmt], ind: str, out: typing.List[str], declared: typing.Set[str], mut: typing.Set[str]) -> None:
+    def mutable_set(self, target: ast.AST, what: str) -> str:
+        """In-place mutation is translated as rebinding, which is right only when nothing else can see the object: the target must be
+        a local that holds a set created by this very function (never a result of a child / a parameter / an attribute)."""
+        if not isinstance(target, ast.Name):
+            raise Untranslatable("%s on something that is not a local" % what)
+        if target.id not in self.names or target.id not in self.fresh_sets:
+            raise Untranslatable("%s on `%s`, which may alias an object owned by someone else" % (what, target.id))
+        return self.names[target.id]
+
+    def stmts(self, body: typing.List[ast.stmt]) -> typing.List[str]:
+        lines: typing.List[str] = []
         for s in body:
             if isinstance(s, ast.Expr) and isinstance(s.value, ast.Constant):
                 continue  # docstring
             if isinstance(s, ast.Pass):
                 continue
             if isinstance(s, ast.Assign) and len(s.targets) == 1 and isinstance(s.targets[0], ast.Name):
-                v = self.e(s.value)
-                self.flush(out, ind)
-                self.assign(s.targets[0].id, v, out, ind, declared, mut)
+                self.assign_value(s.targets[0].id, s.value, lines)
             elif isinstance(s, ast.AnnAssign) and isinstance(s.target, ast.Name) and s.value is not None:
-                v = self.e(s.value)
-                self.flush(out, ind)
-                self.assign(s.target.id, v, out, ind, declared, mut)
+                self.assign_value(s.target.id, s.value, lines)
+            elif isinstance(s, ast.Assign) and len(s.targets) == 1 and isinstance(s.targets[0], ast.Tuple):
+                self.tuple_assign(s.targets[0], s.value, lines)
             elif isinstance(s, ast.AugAssign) and isinstance(s.target, ast.Name):
-                v = self.e(s.value)
-                self.flush(out, ind)
-                t = lname(s.target.id)
                 if isinstance(s.op, ast.BitOr):
-                    out.append("%s%s := Py.setUnion %s %s" % (ind, t, t, v))
-                elif isinstance(s.op, ast.Add):
-                    out.append("%s%s := %s + %s" % (ind, t, t, v))
-                else:
-                    raise Untranslatable("augmented assignment %s" % type(s.op).__name__)
+                    v = self.iterable(s.value)
+                    lines += self.take_pre()
+                    t = self.mutable_set(s.target, "|=")
+                    lines.append("%s := Py.setUnion %s %s" % (t, t, v))
+                    continue
+                cur = self.e(s.target)
+                if s.target.id not in self.names:
+                    raise Untranslatable("augmented assignment to `%s`" % s.target.id)
+                fake = ast.BinOp(left=s.target, op=s.op, right=s.value)
+                v = self.nat(self.binop(fake))
+                lines += self.take_pre()
+                lines.append("%s := %s" % (self.names[s.target.id], v))
+                _ = cur
             elif (isinstance(s, ast.Expr) and isinstance(s.value, ast.Call) and isinstance(s.value.func, ast.Attribute)
-                  and s.value.func.attr == "add" and isinstance(s.value.func.value, ast.Name) and len(s.value.args) == 1):
-                v = self.e(s.value.args[0])
-                self.flush(out, ind)
-                t = lname(s.value.func.value.id)
-                out.append("%s%s := Py.setAdd %s %s" % (ind, t, t, v))
+                  and s.value.func.attr in ("add", "update") and len(s.value.args) == 1 and not s.value.keywords):
+                if s.value.func.attr == "add":
+                    v = self.nat(self.e(s.value.args[0]))
+                    if v.sort != "nat":
+                        raise Untranslatable("set of non-integers")
+                    op = "Py.setAdd"
+                else:
+                    v = self.iterable(s.value.args[0])
+                    op = "Py.setUnion"
+                lines += self.take_pre()
+                t = self.mutable_set(s.value.func.value, "." + s.value.func.attr)
+                lines.append("%s := %s %s %s" % (t, op, t, v))
             elif isinstance(s, ast.Assert):
-                v = self.e(s.test)
-                self.flush(out, ind)
-                out.append("%sPy.assert %s" % (ind, v))
+                v = self.need_bool(self.e(s.test), "assert")  # the message is evaluated only when the assertion fails
+                lines += self.take_pre()
+                lines.append("Py.assert %s" % v)
+            elif isinstance(s, ast.Raise):
+                lines.append("throw %s" % self.exception(s))
             elif isinstance(s, ast.Return):
                 if s.value is None:
                     raise Untranslatable("bare return")
-                v = self.e(s.value)
-                self.flush(out, ind)
-                out.append("%sreturn %s" % (ind, v))
+                was_fresh = isinstance(s.value, ast.Name) and s.value.id in self.fresh_sets
+                v = self.nat(self.consume(s.value))
+                lines += self.take_pre()
+                is_fresh = v.fresh or was_fresh  # the local dies here
+                self.returns_fresh = self.returns_fresh and is_fresh
+                self.return_sorts.add(v.sort)
+                lines.append("return %s" % v)
             elif isinstance(s, ast.If):
-                c = self.e(s.test)
-                self.flush(out, ind)
-                out.append("%sif %s then" % (ind, c))
-                self.stmts(s.body, ind + "  ", out, declared, mut)
-                if s.orelse:
-                    out.append("%selse" % ind)
-                    self.stmts(s.orelse, ind + "  ", out, declared, mut)
-            elif isinstance(s, ast.For) and isinstance(s.target, ast.Name) and not s.orelse:
-                it = self.e(s.iter)
-                self.flush(out, ind)
-                carried = sorted(v for v in assigned_in(s.body) if lname(v) in declared)
-                fresh_locals = assigned_in(s.body) - set(carried)
-                if not carried:
-                    raise Untranslatable("for loop without loop-carried state")
-                if contains(s.body, (ast.Return, ast.Break, ast.Continue)):
-                    raise Untranslatable("return / break / continue inside a for loop")
-                state = lname(carried[0]) if len(carried) == 1 else "(" + ", ".join(map(lname, carried)) + ")"
-                body: typing.List[str] = []
-                if self.typeof(s.iter) == "oplist":
-                    self.types[s.target.id] = "op"
-                self.stmts(s.body, ind + "    ", body, set(declared), mut | {lname(v) for v in fresh_locals})
-                out.append("%s%s ← Py.forEach %s %s (fun %s %s => do" % (ind, state, it, state, state, lname(s.target.id)))
-                for v in carried:  # the lambda's parameters become mutable locals of the body
-                    out.append("%s    let mut %s := %s" % (ind, lname(v), lname(v)))
-                out.extend(body)
-                out.append("%s    pure %s)" % (ind, state))
+                self.if_stmt(s, lines)
+            elif isinstance(s, ast.For) and not s.orelse:
+                self.for_stmt(s, lines)
             else:
                 raise Untranslatable("statement %s" % type(s).__name__)
+        return lines
+
+    def assign_value(self, name: str, value: ast.AST, lines: typing.List[str]) -> None:
+        self.assign(name, self.e(value), lines)
+
+    def tuple_assign(self, target: ast.Tuple, value: ast.AST, lines: typing.List[str]) -> None:
+        names = [t.id for t in target.elts if isinstance(t, ast.Name)]
+        if len(names) != len(target.elts) or len(set(names)) != len(names):
+            raise Untranslatable("unpacking into anything but distinct plain names")
+        if isinstance(value, ast.Tuple) and len(value.elts) == len(names) and not any(isinstance(x, ast.Starred) for x in value.elts):
+            vals = [self.nat(self.e(x)) for x in value.elts]  # all right-hand sides first, left to right
+            lines += self.take_pre()
+            tmps = []
+            for v in vals:
+                if v.atom:
+                    tmps.append(v)
+                else:
+                    t = self.ctx.fresh_tmp()
+                    lines.append("let %s := %s" % (t, v))
+                    tmps.append(mk(t, sort=v.sort, atom=True, tag=v.tag, fresh=v.fresh))
+            for nme, v in zip(names, tmps):
+                if str(v) in self.names.values() and not v.fresh:
+                    v = mk(str(v), sort=v.sort, atom=False, tag=v.tag)
+                self.assign(nme, v, lines)
+            return
+        if (isinstance(value, ast.Call) and isinstance(value.func, ast.Name) and value.func.id == "divmod" and len(value.args) == 2
+                and not value.keywords and len(names) == 2 and "divmod" not in self.names):
+            a, b = self.nat(self.e(value.args[0])), self.nat(self.e(value.args[1]))
+            if a.sort != "nat" or b.sort != "nat":
+                raise Untranslatable("divmod of non-integers")
+            t = self.bind("Py.divmod %s %s" % (a, b), sort=None)
+            self.assign(names[0], mk("%s.1" % t, sort="nat", tag="int"), lines)
+            self.assign(names[1], mk("%s.2" % t, sort="nat", tag="int"), lines)
+            return
+        raise Untranslatable("unpacking of %s" % type(value).__name__)
+
+    def exception(self, s: ast.Raise) -> str:
+        if s.exc is None or s.cause is not None:
+            raise Untranslatable("re-raise / raise from")
+        c = s.exc.func if isinstance(s.exc, ast.Call) else s.exc
+        if not isinstance(c, ast.Name):
+            raise Untranslatable("raise of %s" % ast.unparse(c))
+        return {"ValueError": ".valueError", "AssertionError": ".assertion", "TypeError": ".typeError", "KeyError": ".keyError",
+                "ZeroDivisionError": ".zeroDivision"}.get(c.id, "(.other %s)" % lean_str(c.id))
+
+    def if_stmt(self, s: ast.If, lines: typing.List[str]) -> None:
+        c = self.need_bool(self.e(s.test), "if")
+        lines += self.take_pre()
+        if str(c) == "true" and c.atom:
+            lines += self.stmts(s.body)  # `if isinstance(x, <declared type>)`
+            return
+        conv = self.if_convert(s, c)
+        if conv is not None:
+            lines += conv
+            return
+        before = set(self.names) | set(self.subst)
+        branches = []
+        for blk in (s.body, s.orelse):
+            sub = self.child()
+            sub.returns_fresh, sub.return_sorts = True, set()
+            branches.append((sub, sub.stmts(blk) if blk else []))
+            self.fresh_sets &= sub.fresh_sets
+            self.returns_fresh = self.returns_fresh and sub.returns_fresh
+            self.return_sorts |= sub.return_sorts
+        for name in assigned_in(s.body) | assigned_in(s.orelse):
+            # a local first assigned under a condition is not definitely assigned afterwards; one that was reassigned keeps
+            # its (mutable) binding but loses what was known about the object it holds
+            if name not in before:
+                self.names.pop(name, None)
+                self.subst.pop(name, None)
+            if name in plainly_assigned(s.body) | plainly_assigned(s.orelse):
+                self.fresh_sets.discard(name)
+                if name in self.subst:
+                    raise Untranslatable("conditional reassignment of `%s`" % name)
+        lines.append("if %s then" % (c.prop or c))
+        lines += indent(branches[0][1] or ["pure ()"], 2)
+        if s.orelse:
+            lines.append("else")
+            lines += indent(branches[1][1] or ["pure ()"], 2)
+
+    def if_convert(self, s: ast.If, c: T) -> typing.Optional[typing.List[str]]:
+        """`if c: x = a [else: x = b]` with non-raising right-hand sides is the assignment `x = a if c else b` (one term instead of
+        two copies of everything that follows).  Only when no right-hand side reads a local that the statement assigns (other than
+        its own target), so that the order of the assignments cannot matter."""
+        def simple(blk: typing.List[ast.stmt]) -> typing.Optional[typing.Dict[str, ast.AST]]:
+            out: typing.Dict[str, ast.AST] = {}
+            for st in blk:
+                if isinstance(st, ast.Pass):
+                    continue
+                if not (isinstance(st, ast.Assign) and len(st.targets) == 1 and isinstance(st.targets[0], ast.Name)):
+                    return None
+                if st.targets[0].id in out:
+                    return None
+                out[st.targets[0].id] = st.value
+            return out
+        a, b = simple(s.body), simple(s.orelse)
+        if a is None or b is None or not (a or b):
+            return None
+        targets = list(a) + [k for k in b if k not in a]
+        for k, v in list(a.items()) + list(b.items()):
+            reads = {m.id for m in ast.walk(v) if isinstance(m, ast.Name)}
+            if reads & (set(targets) - {k}):
+                return None
+        reads_c = {m.id for m in ast.walk(s.test) if isinstance(m, ast.Name)}
+        if len(targets) > 1 and reads_c & set(targets):
+            return None
+        for k in targets:
+            if k in self.thunks:
+                return None
+            if not (k in a and k in b) and k not in self.names and k not in self.subst:
+                return None  # not definitely assigned afterwards
+        probe = self.child()
+        vals: typing.Dict[str, typing.Tuple[T, T]] = {}
+        try:
+            for k in targets:
+                cur = probe.e(ast.Name(id=k, ctx=ast.Load())) if (k in self.names or k in self.subst) else None
+                va = probe.nat(probe.e(a[k])) if k in a else cur
+                vb = probe.nat(probe.e(b[k])) if k in b else cur
+                assert va is not None and vb is not None
+                vals[k] = (va, vb)
+        except Untranslatable:
+            return None
+        if probe.pre:
+            return None  # a right-hand side may raise: keep the statement form
+        lines: typing.List[str] = []
+        for k in targets:
+            va, vb = vals[k]
+            self.assign(k, self.ite(c, va, vb), lines)
+        return lines
+
+    def for_stmt(self, s: ast.For, lines: typing.List[str]) -> None:
+        if not isinstance(s.target, ast.Name):
+            raise Untranslatable("loop target that is not a plain name")
+        if contains(s.body, (ast.Return, ast.Break, ast.Continue)):
+            raise Untranslatable("return / break / continue inside a for loop")
+        carried = sorted(v for v in assigned_in(s.body) if v in self.names)
+        if not carried:
+            raise Untranslatable("for loop without loop-carried state")
+        for v in carried:
+            if v not in self.mut:
+                raise Untranslatable("loop-carried `%s` is not a mutable local" % v)
+        for v in plainly_assigned(s.body):
+            self.fresh_sets.discard(v)  # rebound somewhere in the loop: from the second iteration on it may hold anything
+        ln = [self.names[v] for v in carried]
+        state = ln[0] if len(ln) == 1 else "(" + ", ".join(ln) + ")"
+        gen = ast.comprehension(target=s.target, iter=s.iter, ifs=[], is_async=0)
+
+        lost: typing.Set[str] = set()
+
+        def body(sub: "FnTranslator") -> typing.List[str]:
+            before = set(sub.fresh_sets)
+            r = sub.stmts(s.body)
+            lost.update(before - sub.fresh_sets)
+            return r
+
+        lines += self.take_pre()
+        saved = (self.ctx.tmp, self.ctx.acc, self.ctx.helpers, set(self.fresh_sets))
+        self.loop_over([gen], self, state, body, ln)  # probe: an alias made in one iteration is mutated in the next
+        self.ctx.tmp, self.ctx.acc, self.ctx.helpers, self.fresh_sets = saved
+        self.pre = []
+        self.fresh_sets -= lost
+        lines += self.loop_over([gen], self, state, body, ln)
+        self.fresh_sets -= lost
 
 
 def assigned_in(body: typing.List[ast.stmt]) -> typing.Set[str]:
     out: typing.Set[str] = set()
     for n in ast.walk(ast.Module(body=body, type_ignores=[])):
         if isinstance(n, ast.Assign):
-            out |= {t.id for t in n.targets if isinstance(t, ast.Name)}
+            for t in n.targets:
+                out |= {m.id for m in ast.walk(t) if isinstance(m, ast.Name)}
         elif isinstance(n, (ast.AugAssign, ast.AnnAssign)) and isinstance(n.target, ast.Name):
             out.add(n.target.id)
-        elif isinstance(n, ast.Call) and isinstance(n.func, ast.Attribute) and n.func.attr == "add" and isinstance(n.func.value, ast.Name):
+        elif (isinstance(n, ast.Call) and isinstance(n.func, ast.Attribute) and n.func.attr in ("add", "update")
+              and isinstance(n.func.value, ast.Name)):
             out.add(n.func.value.id)
+    return out
+
+
+def plainly_assigned(body: typing.List[ast.stmt]) -> typing.Set[str]:
+    """Names rebound by `=` (as opposed to mutated in place)."""
+    out: typing.Set[str] = set()
+    for n in ast.walk(ast.Module(body=body, type_ignores=[])):
+        if isinstance(n, ast.Assign):
+            for t in n.targets:
+                out |= {m.id for m in ast.walk(t) if isinstance(m, ast.Name)}
+        elif isinstance(n, ast.AnnAssign) and isinstance(n.target, ast.Name):
+            out.add(n.target.id)
     return out
 
 
@@ -376,65 +1059,215 @@ def contains(body: typing.List[ast.stmt], kinds) -> bool:
     return any(isinstance(n, kinds) for n in ast.walk(ast.Module(body=body, type_ignores=[])))
 
 
+def uses_of(body: typing.List[ast.stmt], name: str) -> int:
+    """Number of places that read `name`; a place inside a loop / comprehension / lambda counts as many."""
+    def walk(n: ast.AST, weight: int) -> int:
+        total = 0
+        if isinstance(n, ast.Name) and n.id == name and isinstance(n.ctx, ast.Load):
+            total += weight
+        for field, value in ast.iter_fields(n):
+            kids = value if isinstance(value, list) else [value]
+            for k in kids:
+                if not isinstance(k, ast.AST):
+                    continue
+                w = weight
+                if isinstance(n, (ast.For, ast.While)) and field in ("body", "orelse"):
+                    w = 2
+                if isinstance(n, ast.Lambda) or (isinstance(n, (ast.ListComp, ast.SetComp, ast.GeneratorExp, ast.DictComp))
+                                                  and not (field == "generators" and k is value[0])):
+                    w = 2
+                if isinstance(n, ast.comprehension) and field != "iter":
+                    w = 2
+                total += walk(k, w)
+        return total
+    return sum(walk(s, 1) for s in body)
+
+
+def always_returns(body: typing.List[ast.stmt]) -> bool:
+    if not body:
+        return False
+    last = body[-1]
+    if isinstance(last, (ast.Return, ast.Raise)):
+        return True
+    if isinstance(last, ast.If):
+        return always_returns(last.body) and always_returns(last.orelse)
+    return False
+
+
 def count_assignments(body: typing.List[ast.stmt]) -> typing.Dict[str, int]:
     cnt: typing.Dict[str, int] = {}
+
+    def bump(name: str, k: int) -> None:
+        cnt[name] = cnt.get(name, 0) + k
     for n in ast.walk(ast.Module(body=body, type_ignores=[])):
         if isinstance(n, ast.Assign):
             for t in n.targets:
-                if isinstance(t, ast.Name):
-                    cnt[t.id] = cnt.get(t.id, 0) + 1
+                for m in ast.walk(t):
+                    if isinstance(m, ast.Name):
+                        bump(m.id, 1)
+        elif isinstance(n, ast.AnnAssign) and isinstance(n.target, ast.Name) and n.value is not None:
+            bump(n.target.id, 1)
         elif isinstance(n, (ast.AugAssign,)) and isinstance(n.target, ast.Name):
-            cnt[n.target.id] = cnt.get(n.target.id, 0) + 2
-        elif isinstance(n, ast.Call) and isinstance(n.func, ast.Attribute) and n.func.attr == "add" and isinstance(n.func.value, ast.Name):
-            cnt[n.func.value.id] = cnt.get(n.func.value.id, 0) + 2
-        elif isinstance(n, ast.For):
-            for v in assigned_in(n.body):
-                cnt[v] = cnt.get(v, 0) + 2
+            bump(n.target.id, 2)
+        elif (isinstance(n, ast.Call) and isinstance(n.func, ast.Attribute) and n.func.attr in ("add", "update")
+              and isinstance(n.func.value, ast.Name)):
+            bump(n.func.value.id, 2)
+        elif isinstance(n, (ast.For, ast.If)):
+            for v in assigned_in(n.body) | assigned_in(n.orelse):
+                bump(v, 2)
     return cnt
 
 
-def translate_function(group: dict, cls: typing.Optional[str], fn: ast.FunctionDef, ret: str, argtypes: typing.List[str]) -> typing.List[str]:
+def gen_name(cls: typing.Optional[str], fname: str) -> str:
+    return ("Gen.%s.%s" % (cls, fname)) if cls else "Gen.%s" % fname
+
+
+def lean_ret(ret: str) -> str:
+    return "(" + LEAN_TY[ret] + ")" if " " in LEAN_TY[ret] else LEAN_TY[ret]
+
+
+def translate_function(ctx: Ctx, cls: typing.Optional[str], fn: ast.FunctionDef, ret: str, argtypes: typing.List[str]) -> typing.List[str]:
     params: typing.List[str] = []
-    locals_: typing.Dict[str, str] = {}
+    t = FnTranslator(ctx, cls)
+    ctx.tmp = ctx.acc = ctx.helpers = 0
     if cls:
-        for (ln, ty) in group["classes"][cls]["fields"].values():
+        for (ln, ty) in ctx.fields[cls].values():
             params.append("(%s : %s)" % (ln, LEAN_TY[ty]))
-    args = fn.args.args[1:] if cls else fn.args.args
-    for a, ty in zip(args, argtypes):
-        params.append("(%s : %s)" % (lname(a.arg), LEAN_TY[ty]))
-        locals_[a.arg] = ty
-    t = FnTranslator(group, cls, locals_)
-    body: typing.List[str] = []
-    mut = {lname(k) for k, v in count_assignments(fn.body).items() if v > 1}
-    t.stmts(fn.body, "  ", body, set(), mut)
-    name = ("Gen.%s.%s" % (cls, "pad" if fn.name == "_pad" else fn.name.lstrip("_"))) if cls else "Gen.%s" % fn.name
-    head = "def %s %s : Py.M %s := do" % (name, " ".join(params), "(" + LEAN_TY[ret] + ")" if " " in LEAN_TY[ret] else LEAN_TY[ret])
-    return [head] + body
+    a = fn.args
+    if a.vararg or a.kwarg or a.kwonlyargs or a.posonlyargs:
+        raise Untranslatable("parameters other than plain positional ones")
+    args = a.args[1:] if cls else a.args
+    if len(args) != len(argtypes):
+        raise Untranslatable("takes %d arguments, the interface has %d" % (len(args), len(argtypes)))
+    counts = count_assignments(fn.body)
+    t.mut = {k for k, v in counts.items() if v > 1} | {x.arg for x in args if counts.get(x.arg, 0) > 0}
+    for x, ty in zip(args, argtypes):
+        ln = t.declare(x.arg, ty)
+        params.append("(%s : %s)" % (ln, LEAN_TY[ty]))
+    for x in args:
+        if x.arg in t.mut:
+            raise Untranslatable("parameter `%s` is reassigned" % x.arg)
+    if not always_returns(fn.body):
+        raise Untranslatable("a path ends without `return`")
+    body = t.stmts(fn.body)
+    want = {"int": "nat", "bool": "bool"}.get(ret)
+    if any(s != want for s in t.return_sorts):
+        raise Untranslatable("returns something that is not %s" % ret)
+    head = "def %s %s : Py.M %s := do" % (gen_name(cls, fn.name), " ".join(params), lean_ret(ret))
+    return [head] + indent(body, 2)
 
 
 def failing_stub(group: dict, cls: typing.Optional[str], fname: str, ret: str, argtypes: typing.List[str], why: str) -> typing.List[str]:
     params = []
     if cls:
-        for (ln, ty) in group["classes"][cls]["fields"].values():
+        for (ln, ty) in group["classes"][cls]["ctor"]:
             params.append("(_%s : %s)" % (ln, LEAN_TY[ty]))
     for i, ty in enumerate(argtypes):
         params.append("(_a%d : %s)" % (i, LEAN_TY[ty]))
-    name = ("Gen.%s.%s" % (cls, "pad" if fname == "_pad" else fname.lstrip("_"))) if cls else "Gen.%s" % fname
-    rt = "(" + LEAN_TY[ret] + ")" if " " in LEAN_TY[ret] else LEAN_TY[ret]
-    return ["def %s %s : Py.M %s :=" % (name, " ".join(params), rt), "  throw (.other %s)" % lean_str("untranslatable: " + why)]
+    return ["def %s %s : Py.M %s :=" % (gen_name(cls, fname), " ".join(params), lean_ret(ret)),
+            "  throw (.other %s)" % lean_str("untranslatable: " + why)]
 
 
 def lean_str(s: str) -> str:
     return '"' + s.replace("\\", "\\\\").replace('"', '\\"').replace("\n", " ") + '"'
 
 
+def is_self_attr(n: ast.AST) -> bool:
+    return isinstance(n, ast.Attribute) and isinstance(n.value, ast.Name) and n.value.id == "self"
+
+
+def derive_fields(group: dict, cname: str, cls: ast.ClassDef) -> typing.Dict[str, typing.Tuple[str, str]]:
+    """Which private attribute holds which constructor parameter: read off `__init__`, which has to be a list of validations
+    (`if …: raise …`, `for …: if …: raise …`) and of plain stores `self._x = param` / `int(param)` / `set(param)` / `list(param)`,
+    one per parameter; no other method may assign an attribute (operators are immutable values for the translation)."""
+    spec = group["classes"][cname]["ctor"]
+    bases = [ast.unparse(b) for b in cls.bases]
+    if bases != [group["iface_class"]]:
+        raise Untranslatable("base classes %s (methods may be inherited or overridden)" % bases)
+    if cls.keywords:
+        raise Untranslatable("class keywords")
+    init = next((f for f in cls.body if isinstance(f, ast.FunctionDef) and f.name == "__init__"), None)
+    if init is None:
+        raise Untranslatable("no __init__")
+    a = init.args
+    if a.vararg or a.kwarg or a.kwonlyargs or a.posonlyargs or a.defaults or init.decorator_list:
+        raise Untranslatable("__init__: only plain positional parameters are supported")
+    params = [x.arg for x in a.args[1:]]
+    if len(params) != len(spec):
+        raise Untranslatable("__init__ takes %d parameters, the model has %d" % (len(params), len(spec)))
+
+    def only_raises(body: typing.List[ast.stmt]) -> bool:
+        for st in body:
+            if isinstance(st, (ast.Raise, ast.Pass)):
+                continue
+            if isinstance(st, ast.If) and only_raises(st.body) and only_raises(st.orelse):
+                continue
+            if isinstance(st, ast.For) and not st.orelse and only_raises(st.body):
+                continue
+            return False
+        return True
+
+    stored: typing.Dict[str, str] = {}  # parameter -> attribute
+    fields: typing.Dict[str, typing.Tuple[str, str]] = {}
+    for st in init.body:
+        if isinstance(st, ast.Expr) and isinstance(st.value, ast.Constant):
+            continue
+        if isinstance(st, (ast.If, ast.For)) and only_raises([st]):
+            continue
+        target = value = None
+        if isinstance(st, ast.Assign) and len(st.targets) == 1:
+            target, value = st.targets[0], st.value
+        elif isinstance(st, ast.AnnAssign) and st.value is not None:
+            target, value = st.target, st.value
+        if target is None or not is_self_attr(target):
+            raise Untranslatable("__init__: statement `%s` is neither a validation nor a store of a parameter"
+                                 % ast.unparse(st).splitlines()[0])
+        wrapper = None
+        if isinstance(value, ast.Call) and isinstance(value.func, ast.Name) and len(value.args) == 1 and not value.keywords:
+            wrapper, value = value.func.id, value.args[0]
+        if not (isinstance(value, ast.Name) and value.id in params):
+            raise Untranslatable("__init__: `self.%s` is not set to a parameter" % target.attr)
+        ln, ty = spec[params.index(value.id)]
+        if wrapper not in CTOR_WRAPPERS[ty]:
+            raise Untranslatable("__init__: `self.%s = %s(%s)` (expected one of %s for a parameter of type %s)"
+                                 % (target.attr, wrapper, value.id, CTOR_WRAPPERS[ty], ty))
+        if value.id in stored or target.attr in fields:
+            raise Untranslatable("__init__: parameter `%s` / attribute `%s` stored twice" % (value.id, target.attr))
+        stored[value.id] = target.attr
+        fields[target.attr] = (ln, ty)
+    if set(stored) != set(params):
+        raise Untranslatable("__init__: parameters %s are not stored" % sorted(set(params) - set(stored)))
+    for f in cls.body:
+        for n in ast.walk(f):
+            if f is not init and is_self_attr(n) and isinstance(n.ctx, (ast.Store, ast.Del)):  # type: ignore[attr-defined]
+                raise Untranslatable("attribute self.%s is assigned outside __init__" % n.attr)  # type: ignore[attr-defined]
+    for f in cls.body:  # a class-level name that shadows an attribute / a method defined twice: not the simple class we translate
+        if isinstance(f, (ast.Assign, ast.AnnAssign)):
+            raise Untranslatable("class-level assignment")
+    names = [f.name for f in cls.body if isinstance(f, ast.FunctionDef)]
+    if len(names) != len(set(names)):
+        raise Untranslatable("a method is defined twice")
+    # keep the order of the constructor parameters (it is the order of the parameters of the generated definitions)
+    return {stored[p]: fields[stored[p]] for p in params}
+
+
 def method_order(cls: ast.ClassDef, wanted: typing.Dict[str, str]) -> typing.List[ast.FunctionDef]:
-    """Methods in dependency order (a method that uses self.m comes after m)."""
-    fns = {f.name: f for f in cls.body if isinstance(f, ast.FunctionDef) and f.name in wanted}
-    deps = {}
-    for name, f in fns.items():
-        used = {n.attr for n in ast.walk(f) if isinstance(n, ast.Attribute) and isinstance(n.value, ast.Name) and n.value.id == "self"}
-        deps[name] = {u for u in used if u in fns and u != name}
+    """Public methods in dependency order (a method that uses self.m, directly or through private helpers, comes after m)."""
+    allf = {f.name: f for f in cls.body if isinstance(f, ast.FunctionDef)}
+    fns = {k: v for k, v in allf.items() if k in wanted}
+
+    def used(f: ast.FunctionDef, seen: typing.Set[str]) -> typing.Set[str]:
+        out: typing.Set[str] = set()
+        for n in ast.walk(f):
+            if is_self_attr(n):
+                a = n.attr  # type: ignore[attr-defined]
+                if a in fns:
+                    out.add(a)
+                elif a in allf and a not in seen:
+                    seen.add(a)
+                    out |= used(allf[a], seen)
+        return out
+    deps = {name: used(f, {name}) - {name} for name, f in fns.items()}
     order: typing.List[str] = []
     while len(order) < len(fns):
         ready = [n for n in fns if n not in order and deps[n] <= set(order)]
@@ -461,36 +1294,68 @@ def translate_group(group: dict, repo: Path) -> typing.Tuple[str, typing.List[st
     lines = src.splitlines()
     classes = {n.name: n for n in tree.body if isinstance(n, ast.ClassDef)}
     funcs = {n.name: n for n in tree.body if isinstance(n, ast.FunctionDef)}
+    for n in tree.body:  # a name defined twice at module level (or rebound) could make a helper mean something else
+        if isinstance(n, (ast.FunctionDef, ast.ClassDef)) and sum(1 for m in tree.body if getattr(m, "name", None) == n.name) > 1:
+            problems.append("%s: `%s` is defined more than once" % (group["source"], n.name))
+            funcs.pop(n.name, None)
+    for n in ast.walk(tree):
+        if isinstance(n, (ast.Global, ast.Nonlocal)):
+            problems.append("%s: global / nonlocal statement" % group["source"])
+    rebound = {t.id for n in tree.body if isinstance(n, (ast.Assign, ast.AugAssign, ast.AnnAssign))
+               for t in ast.walk(n) if isinstance(t, ast.Name) and isinstance(t.ctx, ast.Store)}
+    for n in tree.body:
+        if isinstance(n, (ast.Import, ast.ImportFrom)):
+            rebound |= {(al.asname or al.name).split(".")[0] for al in n.names} - {"itertools", "math"}
+            if isinstance(n, ast.ImportFrom):
+                rebound |= {al.asname or al.name for al in n.names}
+            rebound |= {al.asname for al in n.names if al.asname in ("itertools", "math") and al.name != al.asname}
+    for name in rebound & (set(funcs) | {"min", "max", "sum", "set", "len", "int", "map", "range", "isinstance", "sorted", "list",
+                                          "itertools", "math", "divmod", "tuple", "frozenset"}):
+        problems.append("%s: module-level name `%s` is rebound" % (group["source"], name))
+        funcs.pop(name, None)
 
     def span(fn) -> str:
         text = "\n".join(lines[fn.lineno - 1: fn.end_lineno])
         return "lines %d-%d sha256 %s" % (fn.lineno, fn.end_lineno, hashlib.sha256(text.encode()).hexdigest()[:16])
 
-    for fname, (argtypes, ret) in group.get("functions", {}).items():
-        fn = funcs.get(fname)
+    fields: typing.Dict[str, typing.Dict[str, typing.Tuple[str, str]]] = {}
+    broken: typing.Dict[str, str] = {}
+    for cname in group["classes"]:
+        cls = classes.get(cname)
+        if cls is None:
+            broken[cname] = "class not found"
+            continue
         try:
-            if fn is None:
-                raise Untranslatable("function not found")
-            body = translate_function(group, None, fn, ret, argtypes)
-            out.append("/- %s  %s %s -/" % (fname, group["source"], span(fn)))
+            fields[cname] = derive_fields(group, cname, cls)
         except Untranslatable as ex:
-            problems.append("%s.%s: %s" % (group["source"], fname, ex))
-            body = failing_stub(group, None, fname, ret, argtypes, str(ex))
-        out += body + [""]
+            broken[cname] = str(ex)
+    ctx = Ctx(group, funcs, classes, fields)
+    nargs = {"prop": 0, "method0": 0, "method": 1}
     for cname, spec in group["classes"].items():
         cls = classes.get(cname)
-        present = {f.name for f in cls.body if isinstance(f, ast.FunctionDef)} if cls else set()
-        try:
-            ordered = method_order(cls, spec["methods"]) if cls else []
-        except Untranslatable as ex:
-            problems.append("%s.%s: %s" % (group["source"], cname, ex))
-            ordered = []
+        if cname in broken:
+            problems.append("%s %s: %s" % (group["source"], cname, broken[cname]))
+        ordered: typing.List[ast.FunctionDef] = []
+        if cname not in broken:
+            try:
+                ordered = method_order(cls, spec["methods"])
+            except Untranslatable as ex:
+                problems.append("%s.%s: %s" % (group["source"], cname, ex))
         done = set()
         for fn in ordered:
             ret = spec["methods"][fn.name]
-            argtypes = ["int"] * (len(fn.args.args) - 1)
+            kind = group["iface"][fn.name][0]
+            argtypes = ["int"] * nargs[kind]
             try:
-                body = translate_function(group, cname, fn, ret, argtypes)
+                want = ["property"] if kind == "prop" else []
+                if FnTranslator.decorators(fn) != want:
+                    raise Untranslatable("decorators %s" % FnTranslator.decorators(fn))
+                try:
+                    body = translate_function(ctx, cname, fn, ret, argtypes)
+                except Untranslatable:
+                    raise
+                except Exception as ex:  # pylint: disable=broad-except
+                    raise Untranslatable("internal error of the translator: %r" % (ex,))
                 out.append("/- %s.%s  %s %s -/" % (cname, fn.name, group["source"], span(fn)))
             except Untranslatable as ex:
                 problems.append("%s %s.%s: %s" % (group["source"], cname, fn.name, ex))
@@ -499,10 +1364,10 @@ def translate_group(group: dict, repo: Path) -> typing.Tuple[str, typing.List[st
             done.add(fn.name)
         for mname, ret in spec["methods"].items():
             if mname not in done:
-                problems.append("%s %s.%s: not found" % (group["source"], cname, mname))
-                nargs = 1 if mname in ("modulo", "_pad") else 0
-                out += failing_stub(group, cname, mname, ret, ["int"] * nargs, "not found") + [""]
-        _ = present
+                if cname not in broken:
+                    problems.append("%s %s.%s: not found" % (group["source"], cname, mname))
+                out += failing_stub(group, cname, mname, ret, ["int"] * nargs[group["iface"][mname][0]],
+                                    broken.get(cname, "not found")) + [""]
     return "\n".join(out) + "\n", problems
 
 
